@@ -112,6 +112,22 @@ func setHooks(rec *Recorder, att int, seed uint64) {
 	hookCfgV.Store(&hookCfg{rec: rec, att: att, seed: seed})
 }
 
+// once goroutines have been seen left behind in several attempts the verdict is settled: keep the rest of the run short
+var leaksSeen int
+
+func noteLeak(n int) {
+	if n > 0 {
+		leaksSeen++
+	}
+}
+
+func leakBound() time.Duration {
+	if leaksSeen >= 3 && waitBound > 1500*time.Millisecond {
+		return 1500 * time.Millisecond
+	}
+	return waitBound
+}
+
 // waitBound is "bounded time" (observed latencies are milliseconds).
 var waitBound = 8 * time.Second
 var stuckCount int
@@ -946,10 +962,11 @@ func (rs *runState) runAttempt(att int, a AttemptPlan, dsnOverride string) {
 	leakDone := false
 	if a.LeakFirst && errPending == nil && errCalls == 0 {
 		// no library goroutine may remain after Stream returned, whether or not the caller goes on to call Error()
-		left := waitNoNewLibraryGoroutines(baseG, waitBound)
+		left := waitNoNewLibraryGoroutines(baseG, leakBound())
 		if left == nil {
 			left = []string{}
 		}
+		noteLeak(len(left))
 		rec.Emit(M{"ev": "goroutines", "att": att, "left": left, "n": len(left), "beforeError": true})
 		leakDone = true
 	}
@@ -1020,10 +1037,11 @@ func (rs *runState) runAttempt(att int, a AttemptPlan, dsnOverride string) {
 	if leakDone {
 		return
 	}
-	left := waitNoNewLibraryGoroutines(baseG, waitBound)
+	left := waitNoNewLibraryGoroutines(baseG, leakBound())
 	if left == nil {
 		left = []string{}
 	}
+	noteLeak(len(left))
 	rec.Emit(M{"ev": "goroutines", "att": att, "left": left, "n": len(left), "beforeError": false})
 	// abandon leaked goroutines of this attempt so that the next attempt starts clean: closing the
 	// master's side of the connection unblocks a reader stuck in ReadPacket.
